@@ -10,11 +10,11 @@ sec9 = open('/verif/tools/design_sec9.md').read()
 sec10 = open('/verif/tools/design_sec10.md').read()
 s = s.replace("\n## Appendix A", "\n" + sec9 + "\n---------------------------------------------------------------------------\n\n" + sec10 + "\n---------------------------------------------------------------------------\n\n## Appendix A", 1)
 rows = []
-for d in sorted(glob.glob('/verif/seeded/*/'), key=lambda p: (os.path.basename(p[:-1]).split('-')[0], int(re.match(r'\d+', os.path.basename(p[:-1]).split('-')[1]).group(0)), os.path.basename(p[:-1]))):
+for d in sorted(glob.glob('/verif/seeded/*/'), key=lambda p: (os.path.basename(p[:-1]).split('-')[0], int((re.match(r'\d+', os.path.basename(p[:-1]).split('-')[1]) or re.match(r'(99)', '99')).group(0)), os.path.basename(p[:-1]))):
     m = json.load(open(d + 'meta.json'))
     sid = os.path.basename(d[:-1])
     cr = m.get('check_result', '')
-    missed = 'MISSED' in cr.upper().split('CAUGHT')[0] if cr else m.get('initially_missed', False)
+    missed = bool(m.get('initially_missed')) or ('MISSED' in cr.upper().split('CAUGHT')[0] if cr else False)
     summ = re.sub(r"\s+", " ", m.get('summary', ''))[:230].replace('|', '/')
     needs = re.sub(r"\s+", " ", m.get('needs_to_manifest', ''))[:150].replace('|', '/')
     res = re.sub(r"\s+", " ", cr)[:260].replace('|', '/')
